@@ -341,6 +341,8 @@ func TestC20(t *testing.T) {
 	}
 
 	c20DialTimeoutStream(t, rep, rng.Fork(), env)
+	// the capability verdict of the handshake itself: 'not supported' only for an own SYN-ACK without SACK-permitted
+	handshakeStream(t, rep, orc, rng.Fork(), env.Scale(1000, 20000))
 	if rep.Failed() {
 		t.Fail()
 	}
